@@ -23,7 +23,24 @@ for id in "${ids[@]}"; do
   [ $ex -eq 1 ] || rc=1
   rm -f $log
 done
-mv $out.tmp $out
+# merge with the rows of earlier runs (a partial run updates its own rows only)
+python3 - "$out" "$out.tmp" <<'PY'
+import sys, re, os
+out, tmp = sys.argv[1], sys.argv[2]
+rows = {}
+for path in (out, tmp):
+    if not os.path.exists(path):
+        continue
+    for line in open(path):
+        m = re.match(r"\| (C\d\d-[a-z]) \|", line)
+        if m:
+            rows[m.group(1)] = line
+with open(out, "w") as f:
+    f.write("| seeded | patch | check exit | new signatures (first 3) |\n|---|---|---|---|\n")
+    for k in sorted(rows):
+        f.write(rows[k])
+os.remove(tmp)
+PY
 cat $out
 # leave the harness built from the restored tree
 (cd harness && cargo build --release --offline --quiet 2>/dev/null)
